@@ -1,6 +1,8 @@
 # C02 - decoding work and memory are bounded by the datagram's size.
 import codec
 import flowjobs
+import json
+import os
 import fuzzrun
 import vlib
 
@@ -80,6 +82,33 @@ def big_cache_stage(ctx, thorough):
         ctx.traces_validated += 1
 
 
+def storm_stage(ctx, thorough):
+    """'a single datagram cannot stall a worker', with the other workers around: several goroutines decode at once - data
+    sets of templates nobody announced (every one asks the peers; nobody serves that queue), template announcements for ids
+    in all shards, exporters in 4- and 16-octet form.  Every Decode call must return."""
+    from props import c10
+    for proto in ("ipfix", "v9"):
+        drv = c10.build(ctx, proto, race=False)
+        d = ctx.subdir("c02storm_" + proto)
+        for k in range(3 if thorough else 1):
+            out = os.path.join(d, "storm%d.json" % k)
+            rc, log, to = ctx.go_run(drv, "TestVerifStorm", timeout=300,
+                                     env={"VERIF_OUT": out, "VERIF_ROUNDS": 3000 if thorough else 1200, "VERIF_HANG_S": 60})
+            ctx.count([proto, "storm", ctx.seed, k])
+            if to or rc != 0 or not os.path.exists(out):
+                why = next((l for l in log.split("\n") if l.startswith(("panic:", "fatal error:"))), None)
+                if why:
+                    ctx.violation("%s: decoders running side by side took the process down: %s" % (codec.P[proto]["name"], why), {"log": log[-2000:]}, key=proto + ":storm-died")
+                    continue
+                raise vlib.Infra("storm driver failed:\n" + log[-1500:])
+            r = json.load(open(out))
+            if r["stuck"]:
+                ctx.violation("%s: with decoders running side by side (data sets of unknown templates, lookups that miss, template announcements), %s Decode calls "
+                              "had not returned after 60 s: a datagram stalls its worker for good" % (codec.P[proto]["name"], r["stuck"] if r["stuck"] > 0 else "some"),
+                              {"proto": proto, "rounds": r["rounds"]}, key=proto + ":storm-stuck")
+            ctx.traces_validated += 1
+
+
 def check(ctx):
     thorough = ctx.tier == "thorough"
     ctx.rule = ("same histories as C01 (TLC grammar-boundary enumeration, on which TLC proves Total/Progress/OutBounded for the "
@@ -90,6 +119,7 @@ def check(ctx):
                         "allocation bound: linear in the datagram's octets per template field already received; TotalAlloc deltas are coarse",
                         "time bound is three orders of magnitude above the normal cost (microseconds)"]
     big_cache_stage(ctx, thorough)
+    storm_stage(ctx, thorough)
     n = 200000 if thorough else 8000
     for proto, pairs in fuzzrun.all_protocols(ctx, thorough, n, True, 1 if thorough else 3):
         for job, r in pairs:
